@@ -580,6 +580,10 @@ func runC18(c *engine.Ctx) {
 		})
 	}
 	c.Floor(n12, 1)
+
+	// ---- R13 accepted enumerations are the ones the consumers compare with ----
+	checkValidationExact(c, "R13")
+	checkLegacyConversion(c, "R14")
 }
 
 // checkFlagTargets (R9): "the same configuration given through command-line flags yields identical structures". Every
@@ -939,4 +943,136 @@ func checkJSONTags(c *engine.Ctx, pkgs []string) {
 		}
 	}
 	c.Floor(n, 40)
+}
+
+// checkLegacyConversion (C18.R14, shared as C03.R10 / C05.R10): the legacy (ini) configuration is converted field by
+// field into the v1 structures. Two obligations per Convert_* function, both over the stores `out.<dst> = conf.<src>`:
+// (a) name agreement — when the source structure has a field with the destination's name, that is the field copied
+// (UseEncryption is not fed from UseCompression); (b) completeness — every leaf field name that exists in both the source
+// and the destination structure is actually copied (a dropped line silently resets the option to its default on one side).
+func checkLegacyConversion(c *engine.Ctx, rule string) {
+	c.Rule(rule, "pkg/config/legacy Convert_*: a destination field that has a namesake in the source structure is copied from that namesake, and every leaf field name common to source and destination is copied")
+	p := c.P
+	n := 0
+	// leaves of a struct type: exported non-struct fields, through nested and embedded repo structs; a name that
+	// occurs at two nesting levels is dropped (it identifies nothing)
+	leaves := func(t types.Type) map[string]*types.Var {
+		out := map[string]*types.Var{}
+		dup := map[string]bool{}
+		seen := map[types.Type]bool{}
+		var walk func(t types.Type, d int)
+		walk = func(t types.Type, d int) {
+			t = engine.Deref(t)
+			if seen[t] || d > 4 {
+				return
+			}
+			seen[t] = true
+			st, ok := t.Underlying().(*types.Struct)
+			if !ok {
+				return
+			}
+			for i := 0; i < st.NumFields(); i++ {
+				f := st.Field(i)
+				ft := engine.Deref(f.Type())
+				if _, isSt := ft.Underlying().(*types.Struct); isSt {
+					if nn := engine.NamedOf(ft); nn == nil || nn.Obj().Pkg() == nil || engine.IsRepoPkg(nn.Obj().Pkg().Path()) {
+						walk(ft, d+1)
+						continue
+					}
+				}
+				if f.Exported() {
+					if _, again := out[f.Name()]; again {
+						dup[f.Name()] = true
+					}
+					out[f.Name()] = f
+				}
+			}
+		}
+		walk(t, 0)
+		for k := range dup {
+			delete(out, k)
+		}
+		return out
+	}
+	sameKind := func(a, b types.Type) bool {
+		a, b = engine.Deref(a), engine.Deref(b)
+		if types.Identical(a, b) {
+			return true
+		}
+		ba, oka := a.Underlying().(*types.Basic)
+		bb, okb := b.Underlying().(*types.Basic)
+		return oka && okb && ba.Kind() == bb.Kind()
+	}
+	for _, f := range p.RepoFuncs() {
+		if f.Pkg == nil || !strings.HasSuffix(f.Pkg.Pkg.Path(), "/pkg/config/legacy") || f.Parent() != nil || !strings.HasPrefix(f.Name(), "Convert_") {
+			continue
+		}
+		if len(f.Params) != 1 || f.Signature.Results().Len() != 1 {
+			continue
+		}
+		dstT := f.Signature.Results().At(0).Type()
+		if _, isIface := dstT.Underlying().(*types.Interface); isIface {
+			continue // dispatchers over the typed converters
+		}
+		n++
+		dstLeaves := leaves(dstT)
+		// the source structures: the parameter's type and every legacy struct the function reads fields of (the
+		// source may be reached through an accessor such as conf.GetBaseConfig())
+		var srcStructs []map[string]*types.Var
+		seenSrc := map[types.Type]bool{}
+		addSrc := func(t types.Type) {
+			nn := engine.NamedOf(t)
+			if nn == nil || seenSrc[nn] || nn.Obj().Pkg() == nil || !strings.HasSuffix(nn.Obj().Pkg().Path(), "/pkg/config/legacy") {
+				return
+			}
+			seenSrc[nn] = true
+			srcStructs = append(srcStructs, leaves(nn))
+		}
+		addSrc(f.Params[0].Type())
+		engine.ForEachInstr(f, func(in ssa.Instruction) {
+			switch x := in.(type) {
+			case *ssa.FieldAddr:
+				addSrc(x.X.Type())
+			case *ssa.Field:
+				addSrc(x.X.Type())
+			}
+		})
+		copied := map[string]bool{}
+		var bad []string
+		engine.ForEachInstr(f, func(in ssa.Instruction) {
+			st, ok := in.(*ssa.Store)
+			if !ok {
+				return
+			}
+			dst, _ := engine.LoadedField(st.Addr)
+			if dst == nil || dstLeaves[dst.Name()] != dst {
+				return
+			}
+			src := engine.Provenance(st.Val, engine.ProvOpts{})
+			for fv := range src.Fields {
+				for _, ss := range srcStructs {
+					if ss[fv.Name()] != fv {
+						continue // fv is not a leaf of this source structure
+					}
+					copied[dst.Name()] = true
+					if twin, ok := ss[dst.Name()]; ok && twin != fv && sameKind(twin.Type(), dst.Type()) {
+						bad = append(bad, fmt.Sprintf("%s is fed from %s although that legacy structure has a field %s", dst.Name(), fv.Name(), dst.Name()))
+					}
+				}
+			}
+		})
+		var missing []string
+		for name, dv := range dstLeaves {
+			for _, ss := range srcStructs {
+				if sv, ok := ss[name]; ok && sameKind(sv.Type(), dv.Type()) && !copied[name] {
+					missing = append(missing, name)
+				}
+			}
+		}
+		sort.Strings(missing)
+		sort.Strings(bad)
+		c.Check(len(bad) == 0 && len(missing) == 0, p.FuncName(f), f.Pos(), len(copied), nil,
+			"%d fields copied; mismatched: [%s]; common fields never copied: [%s]", len(copied), strings.Join(bad, "; "), strings.Join(missing, ","))
+	}
+	c.Floor(n, 4)
 }
